@@ -9,6 +9,7 @@ use crate::asm::arcob::Arcob;
 use crate::asm::{ConstantError, Context, ErrorLevel, SegmentError};
 use crate::asm::constant::Realm;
 use crate::asm::directive::{Directive, DirectiveErrorKind};
+use crate::asm::memory::map::Search;
 use crate::asm::simplify::{evaluate, EvalError, Evaluation};
 use crate::text::{Positioned, PosNamed};
 use crate::text::parse::{Argument, ArgumentType};
@@ -96,6 +97,9 @@ impl<'l> DataExpr<'l>
 	
 	fn write_data(&mut self, ctx: &mut Context, data: &[u8]) -> Result<(), ErrorLevel>
 	{
+		// a placed statement whose region has been closed lives in the output map, even if
+		// the active region now ends exactly at its address
+		let closed = self.placed && ctx.output().find(self.addr, Search::Exact).is_some();
 		match ctx.active_mut()
 		{
 			Some(active) if !self.placed =>
@@ -108,7 +112,7 @@ impl<'l> DataExpr<'l>
 				}
 				self.placed = true;
 			},
-			Some(active) if self.addr >= active.base_addr() && self.addr <= active.curr_addr() =>
+			Some(active) if !closed && self.addr >= active.base_addr() && self.addr <= active.curr_addr() =>
 			{
 				if let Err(e) = active.write_at(self.addr, data)
 				{
